@@ -90,6 +90,12 @@ def generate(check, rng, tier, run_index):
     if check == 'C18':
         nfiles = 1 if rng.chance(0.75) else 2
         files = [_gen_file(rng, C18_FORMATS, tier) for _ in range(nfiles)]
+        if rng.chance(0.03):
+            # read-only .arc fixture (the format has no writer): only read(n)/read() are offered by the file class
+            fx = rng.choice(sorted(fmts.ARC_FIXTURES))
+            files = [{'fmt': 'arc', 'fixture': fx, 'n_frames': fmts.ARC_FIXTURES[fx][0], 'n_atoms': fmts.ARC_FIXTURES[fx][1],
+                      'cell': None, 'seed': 0, 'knobs': {}}]
+            nfiles = 1
         if nfiles == 2 and rng.chance(0.5):
             files[1]['fmt'] = files[0]['fmt']           # two files of one format: shared registries
             if files[1]['fmt'] == 'mdcrd':
@@ -187,8 +193,17 @@ class World(object):
         self.files = []
         for k, fs in enumerate(case['files']):
             F = fmts.FORMATS[fs['fmt']]
-            t = fmts.make_traj(fs['n_frames'], fs['n_atoms'], fs['cell'], fs['seed'])
             path = os.path.join(workdir, 'f%d%s' % (k, F['ext']))
+            if fs['fmt'] == 'arc':
+                import shutil
+                shutil.copyfile(os.path.join(os.path.dirname(os.path.dirname(os.path.dirname(os.path.abspath(__file__)))), 'data', fs['fixture']), path)
+                with md.open(path) as fh:
+                    ref = np.asarray(fh.read()[0])          # the reference is the sequential read of a fresh handle
+                n = min(len(ref), fs['n_frames'])
+                self.files.append({'spec': dict(fs, n_frames=n), 'path': path, 'traj': None, 'xyz': ref[:n], 'time': None, 'L': None, 'A': None,
+                                   'top_path': None, 'top_saved': False, 'F': None, 'shared_top': None, 'exact': True})
+                continue
+            t = fmts.make_traj(fs['n_frames'], fs['n_atoms'], fs['cell'], fs['seed'])
             kw = {}
             if fs['fmt'] == 'h5':
                 # compression knob goes through the file object
@@ -256,6 +271,10 @@ def _check_frames(f, fmt, parts, ids, ai):
     ref = f['xyz'][ids]
     if ai is not None:
         ref = ref[:, ai]
+    if f.get('exact'):
+        if not np.array_equal(xyz, ref):
+            return 'frames', {'expected_ids': list(ids), 'note': 'fixture frames compared exactly with a fresh sequential read'}
+        return None
     if not np.allclose(xyz, ref, atol=XTOL, rtol=0):
         got = _decode_ids(xyz, ai)
         if got != list(ids):
@@ -861,6 +880,8 @@ def shrink_world(check, case):
             yield c
     for k in range(len(case['files'])):
         fs = case['files'][k]
+        if fs['fmt'] == 'arc':
+            continue
         for key, cands in (('n_frames', [1, 2, 3, 4, 5, fs['n_frames'] // 2, fs['n_frames'] - 1]),
                            ('n_atoms', [1, 3, 10])):
             for v in cands:
